@@ -59,6 +59,16 @@ func checkC13(c *Ctx) {
 	checkFormat(c, l, "FORMAT-keys", "GetNodeKey", l.Func("", "GetNodeKey"), false, []string{"BE64@0(→NodeKey.version) BE32@8(→NodeKey.nonce)"})
 	checkFormat(c, l, "FORMAT-keys", "GetRootKey", l.Func("", "GetRootKey"), false, []string{"MAKE(12) BE64@0(param:version) BE32@8(1)"})
 
+	// byte-level primitives the layouts above are expressed in
+	c.rule("FORMAT-primitives", "length-prefixed bytes and 32-byte hash primitives", 3)
+	checkFormatX(c, l, "FORMAT-primitives", "encoding.EncodeBytes", l.Func("internal/encoding", "EncodeBytes"), false, true, []string{"U(len(param:bz)) W(param:bz)"})
+	checkFormatX(c, l, "FORMAT-primitives", "encoding.Encode32BytesHash", l.Func("internal/encoding", "Encode32BytesHash"), false, true, []string{"W(global:hashLenBz) W(param:bz)"})
+	var encInit *ssa.Function
+	if p := l.Pkg("internal/encoding"); p != nil {
+		encInit = p.Func("init#1")
+	}
+	checkFormatX(c, l, "FORMAT-primitives", "encoding hashLenBz = uvarint(32)", encInit, false, true, []string{"MAKE(1) U(32)"})
+
 	// key-space prefixes from the package initialiser
 	got := map[string]string{}
 	if p := l.Pkg(""); p != nil {
